@@ -194,8 +194,12 @@ async fn run(cases: &str, out: &str, workdir: &str) {
                 .iter()
                 .filter_map(|r| {
                     let e = r.err.as_ref()?;
-                    let code = serde_json::from_str::<serde_json::Value>(e).ok().and_then(|v| v.get("ecode").and_then(|c| c.as_str().map(|x| x.to_string()))).unwrap_or_default();
-                    p.canon.idx.get(&r.tid).map(|i| (*i, format!("case {cid}/{pid}: E {i} {}", if code.is_empty() { "-".to_string() } else { code })))
+                    let ev = serde_json::from_str::<serde_json::Value>(e).ok();
+                    let code = ev.as_ref().and_then(|v| v.get("ecode").and_then(|c| c.as_str().map(|x| x.to_string()))).unwrap_or_default();
+                    // ... and its message (one token: white space replaced)
+                    let msg: String = ev.as_ref().and_then(|v| v.get("message").and_then(|c| c.as_str().map(|x| x.to_string()))).unwrap_or_default()
+                        .chars().map(|c| if c.is_whitespace() { '_' } else { c }).collect();
+                    p.canon.idx.get(&r.tid).map(|i| (*i, format!("case {cid}/{pid}: E {i} {} {}", if code.is_empty() { "-".to_string() } else { code }, if msg.is_empty() { "-".to_string() } else { msg })))
                 })
                 .collect();
             errs.sort();
